@@ -145,11 +145,18 @@ pub fn generate(seed: u64, tier: Tier) -> Case {
     } else {
         diverse_builds(&mut rng, 0, k, Some(&project), true)
     };
+    let mut worlds = vec![world];
+    if rng.chance(1, 8) {
+        if let Some((from, to)) = crate::mutate::coincide(&mut rng, &mut worlds, true) {
+            params.notes.push(format!("coincidence:{from}->{to}"));
+            params.intended_valid = false;
+        }
+    }
     Case {
         property: "C09".into(),
         family: family.into(),
         seed,
-        worlds: vec![world],
+        worlds,
         builds,
         params,
     }
